@@ -34,7 +34,7 @@ def cases(tier, seed, prep=None):
         mode = "tcp" if (q or i % 4) else "tls"
         out.append({"kind": "program", "seed": seed * 1000003 + 1400000 + i, "mode": mode,
                     "third": i % 7 == 3, "welcome_error": ("nope" if i % 23 == 11 else None),
-                    "late_code": i % 9 == 5})
+                    "late_code": i % 9 == 5, "mismatch": i % 11 == 6, "late_welcome_error": i % 13 == 4})
     return out
 
 
@@ -43,6 +43,7 @@ class Prog:
 
     def __init__(self, world, name, rng, shared, spec):
         self.world, self.name, self.rng, self.shared = world, name, rng, shared
+        self.spec = spec
         self.app = WApp(world, name, api=rng.choice(["deferred", "deferred", "delegate"]),
                         eager_msgs=rng.random() < 0.7)
         self.method = rng.choice(["alloc", "set", "input"]) if name == "A" else rng.choice(["set", "input", "set-own"])
@@ -76,6 +77,8 @@ class Prog:
             return None
 
     def known_code(self):
+        if self.spec.get("mismatch") and self.name == "B" and self.shared.get("code"):
+            return self.shared["code"] + "-wrong"
         if self.method == "set-own":
             return "%d-%s" % (self.rng.randint(1, 50), "-".join(self.rng.sample(WORDS, 2)))
         return self.shared.get("code")
@@ -114,6 +117,8 @@ class Prog:
         if self.helper is not None and not closing:
             h = self.helper
             code = self.shared.get("code")
+            if code is not None and self.spec.get("mismatch") and self.name == "B":
+                code = code + "-wrong"
             HE = ("MustChooseNameplateFirstError", "AlreadyChoseNameplateError", "AlreadyChoseWordsError",
                   "KeyFormatError")
             if code is not None:
@@ -248,6 +253,12 @@ def run_case(spec):
     sch.advance_ok = lambda: all(rc_of(p.app.w)._have_made_a_successful_connection for p in drv.progs)
     for _ in range(rng.choice([0, 0, 1, 2, 3, 5])):
         sch.faults.append((rng.randint(3, 400), (lambda i=rng.randint(0, 2): drv.drop(i)), "drop"))
+    if spec.get("late_welcome_error"):
+        def turn_unwelcome():
+            world.welcome_override = {"error": "server is shutting down"}
+        k = rng.randint(10, 300)
+        sch.faults.append((k, turn_unwelcome, "welcome error from now on"))
+        sch.faults.append((k + rng.randint(1, 40), (lambda i=rng.randint(0, 1): drv.drop(i)), "drop"))
     sch.faults.sort(key=lambda f: f[0])
     sch.run(900, until=lambda: all(p.app.closed for p in drv.progs) and len(drv.progs) >= 2)
     drv.third_done = True       # no new participants once the wind-down starts
